@@ -159,6 +159,18 @@ def lifeLine (s : LSt) (m : LMon) (ts : List String) (real : Option String) : Op
     match d.toNat? with
     | some dl => some ({ delay := dl, dynamic := dyn == "1", auto := auto == "1" }, ({} : LMon), "ok", "-")
     | none => some (s, m, "bad-op", "-")
+  | ["lf-end", vb, "transient-nested"] =>
+    -- the stream of VB ends with a re-openable cause and the RE-REQUESTED stream ends again (re-openable) before the first
+    -- re-open has returned: two transient ends in a row = two re-requests from the current position, count untouched
+    match vb.toNat? with
+    | some v =>
+      let (s1, o1) := Life.step s (.endEv v .transient)
+      let (s2, o2) := Life.step s1 (.endEv v .transient)
+      let (m', v1) := match real with
+        | some r => lmonStep m ["lf-end", vb, "transient"] r
+        | none => (m, "-")
+      some (s2, m', showLObss (o1 ++ o2), v1)
+    | none => some (s, m, "bad-op", "-")
   | ["lf-open-end", vb, c] =>
     -- a stream that ends while `Open()` is still opening the other vBuckets: the same two model steps as
     -- `lf-open` followed by `lf-end VB CAUSE` (the count is preset to the assignment size before any stream opens)
